@@ -72,13 +72,13 @@ RefinementInfo(ev) ==
 
 Conv(ev) ==
   IF ev.err \/ ~ConvShapeOK(ev)
-  THEN /\ Judge(FALSE, l, <<"conv", ev.ty, "error or malformed result">>)
+  THEN /\ Judge(FALSE, l, "conv error")
        /\ UNCHANGED rows
   ELSE LET all == rows \o NewRows(ev)
            lo == Len(rows) + 1
            hi == Len(all)
        IN /\ JudgeKF(PairsOK(all, lo, hi, opts), l,
-                     <<"conv F1/F2", ev.ty, BadPair(all, lo, hi, opts)>>, KFConv(all, lo, hi))
+                     "conv", KFConv(all, lo, hi))
           /\ rows' = all
 
 Ord(ev) ==
@@ -87,17 +87,17 @@ Ord(ev) ==
              LET a == rows[ev.pairs[k][1] + 1].b  b == rows[ev.pairs[k][2] + 1].b IN
              /\ ev.cmp[k] = ByteCmp(a, b)
              /\ ev.eq[k] = (a = b),
-        l, <<"ord F5", ev.ty>>)
+        l, "ord F5")
 
 Dec(ev) ==
-  JudgeKF(~ev.err /\ DecodedOK(ev.keys, ev.sel, rows, Len(opts)), l, <<"dec F3", ev.via, ev.ty>>, KFDec(ev))
+  JudgeKF(~ev.err /\ DecodedOK(ev.keys, ev.sel, rows, Len(opts)), l, "dec F3", KFDec(ev))
 
 Bin(ev) ==
   JudgeKF(/\ ~ev.err
           /\ Len(ev.bytes) = Len(ev.sel)
           /\ \A k \in 1..Len(ev.sel) : ev.bytes[k] = rows[ev.sel[k] + 1].b
           /\ DecodedOK(ev.keys, ev.sel, rows, Len(opts)),
-          l, <<"bin F4", ev.ty>>, KFDec(ev))
+          l, "bin F4", KFDec(ev))
 
 Init == l = 1 /\ opts = <<>> /\ fam = <<>> /\ dn = <<>> /\ rows = <<>>
 Next == /\ l <= Len(Rec)
